@@ -226,6 +226,11 @@ func genHistory(g *mon.RNG, proto string, snap []wire.Elem, pair *[2]keyT) *hist
 	}
 	announce := func(addr []byte, id uint16) wire.Set {
 		t := wire.GenTemplate(g, id, o)
+		if old := ref[akey(addr, id)]; old != nil && g.Chance(1, 2) {
+			// a re-announcement that differs from what is in force as little as possible (one length, the order, one
+			// field more or less): it is a new definition all the same
+			t, _ = wire.MinimalVariant(g, old, o)
+		}
 		ref[akey(addr, id)] = t
 		k := wire.SetTemplate
 		if t.Options {
@@ -565,6 +570,7 @@ func histMain(args mon.Args) {
 		one(g, []string{"ipfix", "nf9"}[(i/len(ap))%2], &p, false)
 	})
 	peerClientPhase(run, snap)
+	crowdedShard(run)
 	concurrentLookups(run)
 	concurrentAnnouncers(run)
 	crossProcessHistories(run, snap, "hist:xproc", run.Pick(60, 1500))
@@ -590,7 +596,7 @@ func histMain(args mon.Args) {
 			run.HarnessError("canary: comparator accepted a corrupted expectation")
 		}
 	}
-	run.SetRule("seeded histories of 5-200 messages over 2-50 exporters (4-byte, IPv4-mapped, IPv6) and a pool of 2-5 template ids: announcements, re-announcements with a different definition, data, announce+data, data/redefinition/data inside one message, and template refreshes cut short inside their last template (the complete ones count as announced); a reference map (address octets, id) → latest definition, updated in history order, gives the expected records and the expected 'unknown template' reports of every message; IPFIX peer lookups (IRPC.Get directly and through a real net/rpc server on loopback) must return exactly the reference entry or 'not available'; a peer-client phase runs the real ipfix.RPCServer (port 8085) and fetches hundreds of templates through ONE ipfix.RPCClient, keeping each answer as the RPC loop does: every kept answer must stay equal to its own key's entry. 60-1500 further histories are cut at 1-3 points and every part runs in a process of its own that loads the cache file its predecessor saved (real restarts: per-process state such as a random hash seed differs between the lives). A concurrent phase lets 16 goroutines look up 64 announced keys (8 in one shard) 40 000 times without any announcement: every lookup must see its own key's definition; then 16 goroutines, each the only announcer of its own key, re-announce and decode 1500 times (read-your-own-announcement). Adversarial histories use key pairs with equal FNV-1-32 of address‖id (found by birthday search: same id on two exporters, different ids, IPv4/IPv6/mapped forms) and 20 structurally aliasing pairs (decimal concatenation without separator, addresses differing in one part only or with permuted octets, ids equal modulo 256 / xor 0x8000 / byte-swapped). distinct = (protocol, colliding, sizes, first datagram); non-trivial = at least one record expected")
+	run.SetRule("seeded histories of 5-200 messages over 2-50 exporters (4-byte, IPv4-mapped, IPv6) and a pool of 2-5 template ids: announcements, re-announcements with a different definition (half of them minimal variants of the definition in force: one length, the order, one field more or less), data, announce+data, data/redefinition/data inside one message, and template refreshes cut short inside their last template (the complete ones count as announced); a reference map (address octets, id) → latest definition, updated in history order, gives the expected records and the expected 'unknown template' reports of every message; IPFIX peer lookups (IRPC.Get directly and through a real net/rpc server on loopback) must return exactly the reference entry or 'not available'; a peer-client phase runs the real ipfix.RPCServer (port 8085) and fetches hundreds of templates through ONE ipfix.RPCClient, keeping each answer as the RPC loop does: every kept answer must stay equal to its own key's entry. 60-1500 further histories are cut at 1-3 points and every part runs in a process of its own that loads the cache file its predecessor saved (real restarts: per-process state such as a random hash seed differs between the lives, and so does GOMAXPROCS: 2..48). A crowd phase announces 5200 pairs, 2600 of them in one shard, and decodes data of 500 of them. A concurrent phase lets 16 goroutines look up 64 announced keys (8 in one shard) 40 000 times without any announcement: every lookup must see its own key's definition; then 16 goroutines, each the only announcer of its own key, re-announce and decode 1500 times (read-your-own-announcement). Adversarial histories use key pairs with equal FNV-1-32 of address‖id (found by birthday search: same id on two exporters, different ids, IPv4/IPv6/mapped forms) and 20 structurally aliasing pairs (decimal concatenation without separator, addresses differing in one part only or with permuted octets, ids equal modulo 256 / xor 0x8000 / byte-swapped). distinct = (protocol, colliding, sizes, first datagram); non-trivial = at least one record expected")
 	run.Assume("the RPC() loop itself (multicast discovery) cannot run in this sandbox (no interface with flags == 19); IRPC.Get, RPCServer and RPCClient.Get are exercised")
 	run.Set("sub_claims_not_reached", []string{"peer-fetch client loop (ipfix.RPC): needs multicast discovery"})
 	run.Finish()
@@ -773,6 +779,8 @@ func crossProcessHistories(run *mon.Run, snap []wire.Elem, sigPrefix string, n i
 			os.WriteFile(base+".req", rb, 0o644)
 			cmd := exec.Command(self, "--prop", "C04", "--hist-seg-child", "1", "--req", base+".req", "--res", base+".res")
 			cmd.SysProcAttr = &syscall.SysProcAttr{Pdeathsig: syscall.SIGKILL}
+			// the lives of one history differ in their parallelism too (a restart on other hardware, another cpu-cap)
+			cmd.Env = append(os.Environ(), fmt.Sprintf("GOMAXPROCS=%d", []int{4, 24, 2, 48, 16, 33}[(i+pi)%6]))
 			outB, err := cmd.CombinedOutput()
 			var res segRes
 			b, rerr := os.ReadFile(base + ".res")
@@ -928,6 +936,57 @@ func concurrentAnnouncers(run *mon.Run) {
 		if len(bad) > 0 {
 			run.Violation("hist:"+proto+":concurrent-announcement-undone", fmt.Sprintf("16 goroutines, each the only announcer of its own key (8 keys in one shard): %s", bad[0]),
 				map[string]interface{}{"engine": "cachecheck/hist", "phase": "concurrent-announcers", "proto": proto, "observations": bad})
+		}
+	}
+}
+
+// crowdedShard: a large site. 2600 (exporter, id) pairs that all fall into ONE of the cache's 32 shards (found with the
+// harness-side FNV) plus 2600 spread over the others are announced, each with its own definition; then data of the
+// first, the last and 200 other pairs is decoded. Every one of them is still in force - the property knows no
+// capacity at which an announced template stops counting.
+func crowdedShard(run *mon.Run) {
+	for _, proto := range []string{"ipfix", "nf9"} {
+		api := newCacheAPI(proto, "")
+		var keys []concKey
+		for i := 0; len(keys) < 2600 && i < 400000; i++ {
+			k := concKey{Addr: fullCap([]byte{10, 20, 0, byte(1 + i%18)}), ID: uint16(256 + i/18)} // unique per i
+			if fnvKey(k.Addr, k.ID)%32 == 7 {
+				keys = append(keys, k)
+			}
+		}
+		crowd := len(keys)
+		for i := 0; i < 2600; i++ {
+			keys = append(keys, concKey{Addr: fullCap([]byte{10, 21, byte(i / 250), byte(1 + i%250)}), ID: uint16(300 + i%11)})
+		}
+		seenKey := map[string]bool{}
+		for i, k := range keys {
+			if seenKey[akey(k.Addr, k.ID)] {
+				run.HarnessError("crowded shard: the generator produced a key twice")
+			}
+			seenKey[akey(k.Addr, k.ID)] = true
+			api.write(k, 1+i%60000)
+		}
+		bad := ""
+		checked := 0
+		for i, k := range keys {
+			if !(i < 40 || i >= len(keys)-40 || i%13 == 0 || (i >= crowd-40 && i < crowd+40)) {
+				continue
+			}
+			checked++
+			if v, note := api.read(k); v != 1+i%60000 {
+				bad = fmt.Sprintf("pair #%d (%x, %d) of %d announced pairs (%d of them in one shard): data decoded with v%d %s, announced was v%d", i, k.Addr, k.ID, len(keys), crowd, v, note, 1+i%60000)
+				break
+			}
+		}
+		run.Eval(1)
+		run.Distinct("crowded-shard|" + proto)
+		run.Add("pairs_announced_for_the_crowded_shard_check", int64(len(keys)))
+		run.Add("pairs_decoded_after_the_crowd", int64(checked))
+		if crowd < 2500 {
+			run.HarnessError(fmt.Sprintf("only %d keys found for one shard", crowd))
+		}
+		if bad != "" {
+			run.Violation("hist:"+proto+":announced-template-gone-in-a-crowd", bad, map[string]interface{}{"engine": "cachecheck/hist", "phase": "crowded-shard", "proto": proto})
 		}
 	}
 }
